@@ -385,7 +385,31 @@ fn gen_event(ti: &TrainIn, m: &mut Model, who: &str) -> Value {
     for (name, dual) in [("raw", false), ("dual", true)] {
         let d = SystemDictionaryBuilder::from_readers_with_bigram_info(lex.as_slice(), br.as_slice(), bl.as_slice(), bc.as_slice(), chr.as_bytes(), unk.as_slice(), dual);
         small[name] = match d {
-            Ok(d) => { let p = project(&d); json!({"nr": p["nr"], "nl": p["nl"], "mat": p["mat"]}) }
+            Ok(d) => {
+                let p = project(&d);
+                // the small dictionary with its ids reordered (what the `map` tool does to any dictionary):
+                // left ids reversed, right ids rotated by one; costs are read back through the renaming
+                let (nr, nl) = (d.verif_num_right(), d.verif_num_left());
+                let ll: Vec<u16> = (1..nl as u16).rev().collect();
+                let rl: Vec<u16> = (1..nr as u16).map(|k| if k + 1 < nr as u16 { k + 1 } else { 1 }).collect();
+                let (mut newl, mut newr) = (vec![0u16; nl], vec![0u16; nr]);
+                for (k, &o) in ll.iter().enumerate() { newl[o as usize] = k as u16 + 1; }
+                for (k, &o) in rl.iter().enumerate() { newr[o as usize] = k as u16 + 1; }
+                let mapped: Value = match catch_unwind(AssertUnwindSafe(|| d.map_connection_ids_from_iter(ll.iter().copied(), rl.iter().copied()))) {
+                    Ok(Ok(dm)) => {
+                        let mut m = Vec::with_capacity(nr * nl);
+                        for l in 0..nl {
+                            for r in 0..nr {
+                                m.push(dm.verif_conn_cost(newr[r], newl[l]));
+                            }
+                        }
+                        json!(m)
+                    }
+                    Ok(Err(e)) => json!({"error": e.to_string()}),
+                    Err(_) => json!({"error": "panic"}),
+                };
+                json!({"nr": p["nr"], "nl": p["nl"], "mat": p["mat"], "mapped": mapped})
+            }
             Err(e) => json!({"error": e.to_string()}),
         };
     }
